@@ -262,6 +262,136 @@ func rangeIndexOver(idx ssa.Value, coll ssa.Value) bool {
 	return false
 }
 
+// slotOf: v is a load of a local variable kept in memory (because closures capture it) - directly in the function
+// that declares it, or through the free variable a closure sees it by.
+func slotOf(v ssa.Value) *ssa.Alloc {
+	u, ok := unwrapConv(v).(*ssa.UnOp)
+	if !ok || u.Op != token.MUL {
+		return nil
+	}
+	switch x := u.X.(type) {
+	case *ssa.Alloc:
+		return x
+	case *ssa.FreeVar:
+		al, _ := closureBinding(x)
+		return al
+	}
+	return nil
+}
+
+// slotStores: every store into the variable, in its function or in a closure that captured it; ok is false when
+// its address goes anywhere else (so that it may be written out of sight).
+func slotStores(al *ssa.Alloc) (stores []*ssa.Store, ok bool) {
+	ok = true
+	var visit func(addr ssa.Value, d int)
+	visit = func(addr ssa.Value, d int) {
+		if addr.Referrers() == nil || d > 4 {
+			ok = false
+			return
+		}
+		for _, rf := range *addr.Referrers() {
+			switch y := rf.(type) {
+			case *ssa.Store:
+				if y.Addr == addr {
+					stores = append(stores, y)
+				} else {
+					ok = false
+				}
+			case *ssa.UnOp, *ssa.DebugRef:
+			case *ssa.MakeClosure:
+				fn, isFn := y.Fn.(*ssa.Function)
+				if !isFn {
+					ok = false
+					continue
+				}
+				for i, b := range y.Bindings {
+					if b == addr && i < len(fn.FreeVars) {
+						visit(fn.FreeVars[i], d+1)
+					}
+				}
+			default:
+				ok = false
+			}
+		}
+	}
+	visit(al, 0)
+	return
+}
+
+// capturedRangeIndex: the index is a loop variable kept in memory because closures made in the loop body capture
+// it (go 1.13 semantics: one variable per loop); it is only ever assigned the induction value of `for i := range
+// coll`, coll is a variable assigned once, and the use is in the loop body or in such a closure.
+func capturedRangeIndex(ins ssa.Instruction, idx, coll ssa.Value) bool {
+	is := slotOf(idx)
+	if is == nil {
+		return false
+	}
+	stores, ok := slotStores(is)
+	if !ok || len(stores) == 0 {
+		return false
+	}
+	cs := slotOf(coll)
+	if cs != nil {
+		cst, ok := slotStores(cs)
+		if !ok || len(cst) != 1 {
+			return false
+		}
+	}
+	f := is.Parent()
+	for _, st := range stores {
+		if st.Parent() != f {
+			return false
+		}
+		// the stored value is the induction value of a loop bounded by len() of the same collection
+		okSt := false
+		for _, b := range f.Blocks {
+			cond, body, _ := condEdge(b)
+			cb, isB := cond.(*ssa.BinOp)
+			if !isB || cb.Op != token.LSS || cb.X != st.Val {
+				continue
+			}
+			lc, isC := cb.Y.(*ssa.Call)
+			if !isC {
+				continue
+			}
+			if bi, isBi := lc.Call.Value.(*ssa.Builtin); !isBi || bi.Name() != "len" {
+				continue
+			}
+			bound := lc.Call.Args[0]
+			same := false
+			if cs != nil {
+				same = slotOf(bound) == cs
+			} else {
+				same = coll.Parent() == f && sameExpr(bound, coll)
+			}
+			if !same || !rangeIndexOver(st.Val, bound) || !(st.Block() == body || body.Dominates(st.Block())) {
+				continue
+			}
+			// the use: after the store in the loop body, or in a closure made there
+			use := ins.Block()
+			if ins.Parent() != f {
+				g := ins.Parent()
+				for g.Parent() != nil && g.Parent() != f {
+					g = g.Parent()
+				}
+				use = nil
+				allInstrs(f, func(x ssa.Instruction) {
+					if mc, isMC := x.(*ssa.MakeClosure); isMC && mc.Fn == ssa.Value(g) {
+						use = mc.Block()
+					}
+				})
+			}
+			if use != nil && (use == st.Block() || st.Block().Dominates(use)) && (use == body || body.Dominates(use)) {
+				okSt = true
+			}
+		}
+		if !okSt {
+			return false
+		}
+	}
+	return true
+}
+
 // audited index expressions: safe for a reason outside the function (cross-function length facts, library contracts).
 var auditedIndex = map[string]string{
 	"conversions.ConversionSupplySet.Payouts SortTxIDS()[0]":                                            "top is non-empty when there is at least one request (the max loop appends at least the first maximum)",
@@ -337,6 +467,8 @@ func propC08(c *Ctx, r *Report) {
 			if how == "" && len(s.idx) == 1 {
 				if rangeIndexOver(s.idx[0], s.coll) {
 					how = "index is the induction variable of a loop bounded by len() of the same collection"
+				} else if capturedRangeIndex(s.ins, s.idx[0], s.coll) {
+					how = "index is the loop variable of a range over the same collection, kept in memory for the closures of the loop body"
 				} else if k, ok := s.idx[0].(*ssa.Const); ok && k.Value != nil {
 					if lb := lenLowerBound(s.ins, s.coll); lb > k.Int64() {
 						how = fmt.Sprintf("constant index %d under a dominating guard len >= %d", k.Int64(), lb)
